@@ -4,3 +4,4 @@ import JellyProofs.C08
 import JellyProofs.C10
 import JellyProofs.C13
 import JellyProofs.C04
+import JellyProofs.C06
